@@ -40,6 +40,9 @@ func init() {
 			}
 			ruleDecoderBounds(c, r, "")
 			ruleReaderFrom(c, r, "")
+			ruleWriter2Split(c, r, "")
+			ruleReader2ChunkEOF(c, r, "")
+			ruleReadInvokes(c, r, "")
 			r.Floor("SEQ-STARTCHUNK", 7)
 			r.Floor("CE-CHUNK-AUTOMATON", 1)
 			r.Floor("CE-CTRL", 2)
